@@ -83,7 +83,11 @@ Props ==
   /\ Check(2, "C03 ConnectedPlacement", ConnectedPlacement')
   /\ Check(2, "C03 DiscAfterFg", DiscAfterFg')
   /\ Check(3, "C05 AppliedBeforeHandlers", AppliedBeforeHandlers')
-TNext == (TEnter \/ TExit \/ TRecover \/ TIPanic \/ TDisc \/ TReset) /\ Props
+\* a handler received a line that was never sent, or (the connection staying up) a sent line never arrived
+TBogus == /\ (IsEvent("unknown") \/ IsEvent("lost"))
+          /\ Check(2, "C03 handlers did not receive exactly the lines that were sent", FALSE)
+          /\ UNCHANGED <<vars, lastLine>>
+TNext == (TEnter \/ TExit \/ TRecover \/ TIPanic \/ TDisc \/ TReset \/ TBogus) /\ Props
 TraceSpec == TInit /\ [][TNext]_tvars
 
 HW == TLCSet(1, IF l > TLCGet(1) THEN l ELSE TLCGet(1))
